@@ -313,20 +313,30 @@ func isFixedZone(loc *time.Location) bool {
 }
 
 // localToOffset: UTC offset of the context zone for a local civil time;
-// exists=false when that local time does not exist or is ambiguous there.
+// unambiguous=false when that local time does not exist or occurs twice there.
+// A reading L is valid under offset o iff the zone's offset at the instant L-o
+// is o; the candidates are the offsets in force a day before and a day after.
 func localToOffset(loc *time.Location, days, nsec int64) (off int, unambiguous bool) {
-	y, m, d := civilFromDays(days)
-	s := nsec / 1e9
-	t := time.Date(int(y), time.Month(m), int(d), int(s/3600), int(s/60%60), int(s%60), int(nsec%1e9), loc)
-	_, off = t.Zone()
-	// exists and unambiguous iff the zone's offset one day earlier/later reproduce the same reading
-	// or, simpler: converting back gives the same civil fields and the neighbouring offsets agree.
-	if t.Year() != int(y) || int64(t.Month()) != m || t.Day() != int(d) || t.Hour() != int(s/3600) || t.Minute() != int(s/60%60) {
-		return off, false
+	local := days*86400 + nsec/1e9
+	offAt := func(unix int64) int {
+		_, o := time.Unix(unix, 0).In(loc).Zone()
+		return o
 	}
-	_, offBefore := t.Add(-3 * time.Hour).Zone()
-	_, offAfter := t.Add(3 * time.Hour).Zone()
-	return off, offBefore == off && offAfter == off
+	cands := []int{offAt(local - 26*3600), offAt(local + 26*3600)}
+	if cands[0] == cands[1] {
+		cands = cands[:1]
+	}
+	valid := 0
+	for _, o := range cands {
+		if offAt(local-int64(o)) == o {
+			off = o
+			valid++
+		}
+	}
+	if valid == 0 {
+		off = cands[0]
+	}
+	return off, valid == 1
 }
 
 func instantToOffset(loc *time.Location, days, nsec int64) int {
